@@ -505,3 +505,8 @@ def itertools_join(ctx, args, st):
             else:
                 yield s2, 'ret', StrV((), 'String', {'name': 'join', 'parts': (('join', sc, tuple(parts)),)})
     return g()
+
+
+@model(r'^(?:std::ops::|core::ops::)?RangeInclusive::<.*>::new$')
+def range_inclusive_new(ctx, args, st):
+    return ret(st, Adt('RangeInclusive', None, [args[0], args[1], Bool(False)], ['start', 'end', 'exhausted']))
